@@ -124,6 +124,13 @@ def run_shard(ctx):
             extra, allow, expect_reject = [root], False, others_same_name
         configs.append({"id": "dir-%d" % cid, "call": "read_namespace", "spelling": "abs-path", "shuffle": False, "reorder": False,
                         "perturb_seed": 1, "extra_lookups": extra, "allow_collision": allow, "group": "dir", "dir_kind": kind, "expect_reject": expect_reject})
+        # the same directory set through read_files (roots + lookup directories; name collisions are always allowed there): nesting
+        # is rejected whether targets are given or not
+        some = [str(paths[i]) for i, d in enumerate(ns["defs"]) if d["root"] == 0][:1]
+        for files in ([], some):
+            configs.append({"id": "dirf-%d-%d" % (cid, len(files)), "call": "read_files_dirs", "spelling": "abs-path", "shuffle": False, "reorder": False,
+                            "perturb_seed": 1, "extra_lookups": extra, "files": files, "group": "dir", "dir_kind": kind + ("/read_files-no-targets" if not files else "/read_files"),
+                            "expect_reject": expect_reject and kind.startswith("nested")})
         trees.append({"id": "t%d" % k, "base": str(base), "root": root, "lookups": lookups, "configs": configs})
         meta["t%d" % k] = {"ns": ns, "paths": paths, "base": base, "seed": seed, "subsets": subsets, "dir_kind": kind, "nested_added": kind == "nested-child"}
     spec = {"repo": str(repo_root()), "trees": trees}
